@@ -661,6 +661,30 @@ func runCheck(prop, tier string, writeBaseline, verbose bool, t0 time.Time) int 
 				}
 			}
 		}
+		// names of parameters and locals of the functions under contract (rename tolerance, locals.go)
+		{
+			loadBaseLocals()
+			if baseLocals == nil {
+				baseLocals = map[string]*FuncLocals{}
+			}
+			seen := map[string]bool{}
+			for name := range cr.specs.Funcs {
+				seen[name] = true
+			}
+			for key := range cr.specs.Loops {
+				if i := strings.LastIndex(key, "#"); i > 0 {
+					seen[key[:i]] = true
+				}
+			}
+			for name := range seen {
+				if fn := cr.prog.FindFunc(name); fn != nil && fn.Blocks != nil {
+					baseLocals[name] = funcLocalsOf(fn)
+				}
+			}
+			os.MkdirAll(filepath.Join(verifDir, "baseline"), 0755)
+			lb, _ := json.MarshalIndent(baseLocals, "", " ")
+			os.WriteFile(filepath.Join(verifDir, "baseline", "locals.json"), append(lb, '\n'), 0644)
+		}
 		base[prop] = be
 		os.MkdirAll(filepath.Join(verifDir, "baseline"), 0755)
 		b, _ := json.MarshalIndent(base, "", " ")
